@@ -76,6 +76,10 @@ def gen_template(rng, features: Dict[str, int]):
             keys['angles'] = f'{rng.randrange(-70, 70)} {rng.randrange(0, 360)} {rng.choice((0, 0, 45, 180))}'
         if rng.random() < 0.8:
             keys['targetname'] = rng.choice(names)
+        if rng.random() < 0.12:
+            keys['spawnflags'] = rng.choice(('$x_1', '$var2', '1$v'))
+        if rng.random() < 0.08 and 'angles' in keys:
+            keys['angles'] = rng.choice(('$ang', '0 $yawvar 0'))
         for k in NAME_KEYS[cls]:
             if rng.random() < 0.5:
                 keys[k] = rng.choice(names + ['', 'pre_$var', '$Name2'])
@@ -203,6 +207,8 @@ class Collapser:
             style = rng.randrange(3)
             inst_name = rng.choice(('inst', 'Inst_B', 'i2'))
             table = {v.casefold(): rng.choice(('val', 'Other_7', 'models/x', '12', 'dir\\sub', '\\1\\g<0>', 'c$d', '')) for v in varnames if rng.random() < 0.8}
+            table['ang'] = rng.choice(('0 90 0', '15 200 45', '-30 0 0'))   # (always defined: templates may spell angles through them)
+            table['yawvar'] = rng.choice(('45', '270'))
             inst_ent = target.create_ent('func_instance', targetname=inst_name, origin=' '.join(repr(x) for x in pos),
                                          angles=' '.join(repr(x) for x in ang), file='tmpl.vmf', fixup_style=str(style))
             for v, val in table.items():
@@ -382,9 +388,10 @@ class Collapser:
                         return
                     self.run.count('origins_checked')
                 elif f == 'angles':
-                    a0 = tuple(float(x) for x in old.split())
+                    # (angles, pitch and yaw may be given through $variables like any other value)
+                    a0 = tuple(float(x) for x in sub.split())
                     # the special "pitch" / "yaw" keys override the components of angles before the rotation
-                    folded_keys = {kk.casefold(): vv for kk, vv in keys.items()}
+                    folded_keys = {kk.casefold(): substitute_model(vv, table) for kk, vv in keys.items()}
                     if 'pitch' in folded_keys:
                         pk = float(folded_keys['pitch'])
                         if edef is not None and 'pitch' in edef.kv and edef.kv['pitch'].type.name == 'ANGLE_NEG_PITCH':
@@ -402,10 +409,17 @@ class Collapser:
                                   'entity-orientation', {'diff': maxdiff(got_m, want_m)})
                         return
                     self.run.count('orientations_checked')
-                elif f in ('classname', 'hammerid', 'spawnflags'):
+                elif f == 'classname':
                     if new_val != old:
                         self.fail(f'{label}: {k} changed', 'key-changed')
                         return
+                elif f in ('hammerid', 'spawnflags'):
+                    # not transformed, but $variables are substituted here as everywhere
+                    if new_val != sub:
+                        self.fail(f'{label}: {k}={new_val!r}, expected {sub!r} (template {old!r})', 'key-changed' if '$' not in old else 'variable-substitution')
+                        return
+                    if '$' in old:
+                        self.run.count('variables_in_untransformed_keys_checked')
                 elif edef is not None and f in edef.kv:
                     t = edef.kv[f].type
                     if t.is_ent_name:
@@ -499,11 +513,15 @@ class Collapser:
                             return
             # fixup values of a nested func_instance that are entity names follow the fixup style too; '@'/'!' names and numbers stay
             if cls == 'func_instance':
-                for var, val0 in snap['fixup'].items():
+                for var, raw0 in snap['fixup'].items():
                     got = new.fixup[var]
-                    if val0 and (val0[0] in '@!' or val0.replace('.', '', 1).lstrip('-').isdigit()):
+                    # the outer instance's variables are substituted into the values handed down to the nested instance first
+                    val0 = substitute_model(raw0, table)
+                    if '$' in raw0:
+                        self.run.count('nested_fixup_values_with_variables')
+                    if not val0 or val0[0] in '@!' or val0.replace('.', '', 1).lstrip('-').isdigit():
                         want = val0
-                    elif val0 and val0[0].isalpha() and '$' not in val0:
+                    elif val0[0].isalpha():
                         want = fixup_name_model(style, inst_name, val0)
                     else:
                         continue
@@ -705,7 +723,7 @@ def main(run, shard=(0, 1)) -> None:
             nested_names(run, sub_rng(run.seed, 'nested', i), i)
     probe.report(run)
     probe.check_reached(run)
-    run.require('collapses', 'hidden_entity_brushes_checked', 'nested_name_maps', 'nested_copies_checked', 'nested_fixup_values_checked', 'collapses_keeping_visgroups', 'collapsed_copies_mutated', 'typed_positions_checked', 'typed_angle_keys_checked', 'typed_directions_checked', 'typed_axes_checked', 'typed_sidelists_checked', 'typed_nodeids_checked', 'typed_name_or_class_checked', 'typed_pitch_checked', 'plane_points_checked', 'texture_projections_checked', 'origins_checked', 'orientations_checked',
+    run.require('collapses', 'hidden_entity_brushes_checked', 'nested_name_maps', 'nested_copies_checked', 'nested_fixup_values_checked', 'collapses_keeping_visgroups', 'collapsed_copies_mutated', 'typed_positions_checked', 'typed_angle_keys_checked', 'variables_in_untransformed_keys_checked', 'nested_fixup_values_with_variables', 'typed_directions_checked', 'typed_axes_checked', 'typed_sidelists_checked', 'typed_nodeids_checked', 'typed_name_or_class_checked', 'typed_pitch_checked', 'plane_points_checked', 'texture_projections_checked', 'origins_checked', 'orientations_checked',
                 'names_checked', 'substitutions_checked', 'template_snapshots_compared', 'collapse_all_runs', 'displacements_checked')
 
 
